@@ -35,6 +35,11 @@ SHRINK = {'clear', 'drain', 'truncate', 'remove', 'split_off', 'pop', 'swap_remo
 
 
 def run(ctx):
+    _run_main(ctx)
+    _shared_r4(ctx)
+
+
+def _run_main(ctx):
     with ctx.rule('R01.1', 'single writer: io::Write::write* is called on the transport only from write_to_stream', floor=2) as r:
         sites = {}
         for p, fn in ctx.fns.items():
@@ -222,3 +227,9 @@ def run(ctx):
                 why='whoever queued data before this loop was entered (protocol header, replies to frames replayed behind OpenOk) relies on it to get the socket armed for writing')
         fe = [e for e in evs if e.kind == 'for']
         r.check('rearm-after-batch', fe and rw and fe[0].idx < rw[0].idx, site)
+
+
+def _shared_r4(ctx):
+    """Rules of other properties that are necessary conditions of this one too (found by seeding round 4)."""
+    with ctx.rule('R01.10', 'the I/O loop does not end while a sealed buffer still holds bytes: a state counts as done only as C08 tables it (shared with C08)', floor=1) as r:
+        A.include(ctx, r, 'c08', 'R08.5', pick=('done:',))
